@@ -47,26 +47,45 @@ def run(line):
         s = "".join([text(p[2])])          # a fresh string object that nothing else references
         it = pk.KmerGenerator(s, int(p[1]))
         del s; churn()                      # the iterator must stay valid after the Python string is released
-        out = ",".join("%d:%d" % t for t in it)
+        if len(line) % 3 == 0:
+            # a second, unrelated iterator drawn from in turns: iterators do not share state
+            other = pk.KmerGenerator("GATTACAnGATTACAGATTACA" * 3, 1 + int(p[1]) % 7); items = []
+            for t in it:
+                items.append(t); next(other, None)
+            out = ",".join("%d:%d" % t for t in items)
+        else:
+            out = ",".join("%d:%d" % t for t in it)
         assert next(iter(it), None) is None
         return out
     if op == "mg":
         s = "".join([text(p[3])])
         it = pk.MinimiserGenerator(s, int(p[1]), int(p[2]))
         del s; churn()
+        if len(line) % 3 == 0:
+            other = pk.MinimiserGenerator("GATTACAnGATTACAGATTACAGGCCTTAA" * 3, 9, 4); items = []
+            for t in it:
+                items.append(t); next(other, None)
+            return ",".join("%d:%d:%d" % t for t in items)
         return ",".join("%d:%d:%d" % t for t in it)
     if op == "dec":
         return pk.KmerGenerator("A", int(p[1])).to_acgt(int(p[2]))
     if op == "oligo":
         c = pk.OligoComputer(int(p[1])); t = text(p[3])
+        if len(line) % 2 == 0:              # the object has been used before, for another string and the other mode
+            c.vectorise_one("ACGTNNACGGTTAACCn" * 3, p[2] != "1"); c.get_header()
         if len(t) > 100000: return ",".join(bits(v) for v in c.vectorise_one(t, p[2] == "1"))
         return ",".join(bits(v) for v in fresh_each_time(lambda: c.vectorise_one(t, p[2] == "1")))
     if op == "header":
         c = pk.OligoComputer(int(p[1]))
         return ",".join(fresh_each_time(c.get_header))
     if op == "cgr":
+        c = pk.CgrComputer(int(p[1]))
+        if len(line) % 2 == 0:              # the object has been used before: a good string, then a refused one
+            c.vectorise_one("GATTACA")
+            try: c.vectorise_one("GATNACA")
+            except ValueError: pass
         try:
-            return ",".join("%s:%s" % (bits(x), bits(y)) for x, y in pk.CgrComputer(int(p[1])).vectorise_one(text(p[2])))
+            return ",".join("%s:%s" % (bits(x), bits(y)) for x, y in fresh_each_time(lambda: c.vectorise_one(text(p[2]))))
         except ValueError:
             return "ERR"
     if op == "obatch":
